@@ -76,6 +76,7 @@ class Run:
         self.nr = 0
         self.filecaps = []         # caps handed to did_upload so far
         self.dircaps = 0
+        self.broken = False        # a call raised: the history ends there
 
     def apath(self, name):
         return os.path.join(self.fdir, name)
@@ -123,9 +124,13 @@ class Run:
         for (h, cap, u, k) in c.execute("SELECT dirhash,dircap,last_uploaded,last_checked FROM directories"):
             h = h.decode() if isinstance(h, bytes) else h
             dirs.append({"key": self.hash2contents.get(h, [["?unknown-hash", h]]), "cap": self.s(cap), "up": self.d(u), "chk": self.d(k)})
-        seq = list(c.execute("SELECT seq FROM sqlite_sequence WHERE name='caps'"))
+        try:
+            seq = list(c.execute("SELECT seq FROM sqlite_sequence WHERE name='caps'"))
+            nextid = (seq[0][0] + 1) if seq else 1
+        except sqlite3.OperationalError:
+            nextid = -1                      # the caps table has no AUTOINCREMENT bookkeeping
         con.close()
-        return {"files": files, "caps": caps, "lu": lu, "dirs": dirs, "nextid": (seq[0][0] + 1) if seq else 1}
+        return {"files": files, "caps": caps, "lu": lu, "dirs": dirs, "nextid": nextid}
 
     @staticmethod
     def s(x):
@@ -135,7 +140,16 @@ class Run:
     def d(t):
         return int(t // DAY) if t == int(t) and int(t) % DAY == 0 else -1
 
-    def record(self, ev):
+    def call(self, fn, *a, **kw):
+        """One call of the code under test; an exception is recorded, not judged."""
+        try:
+            return fn(*a, **kw), ""
+        except Exception as ex:
+            self.broken = True
+            return None, type(ex).__name__
+
+    def record(self, ev, raised=""):
+        ev["raised"] = raised
         ev["now"] = self.clock.days
         ev["obs"] = self.obs()
         self.events.append(ev)
@@ -147,42 +161,42 @@ class Run:
         st = {"size": s.st_size, "mtime": int(s.st_mtime), "ctime": self.ctimes[os.path.abspath(p)]}
         self.rnd.pm = self.rng.choice([0, 100, 333, 500, 900, 999])
         arg = os.path.relpath(p, os.getcwd()) if relative else p
-        r = self.bdb.check_file(arg, use_timestamps=use_ts)
+        r, x = self.call(self.bdb.check_file, arg, use_timestamps=use_ts)
         self.nr += 1
         self.fres[self.nr] = r
-        cap = r.was_uploaded()
+        cap = r.was_uploaded() if r else None
         self.record({"ev": "CheckFile", "rid": self.nr, "path": name, "st": st, "use_ts": use_ts, "rnd": self.rnd.pm,
-                     "res": {"cap": self.s(cap) if cap else "", "should": bool(r.should_check())}})
+                     "res": {"cap": self.s(cap) if cap else "", "should": bool(r.should_check()) if r else False}}, x)
         return self.nr, r
 
     def did_upload(self, rid, cap):
-        self.fres[rid].did_upload(cap.encode())
+        _, x = self.call(self.fres[rid].did_upload, cap.encode())
         self.filecaps.append(cap)
-        self.record({"ev": "DidUpload", "rid": rid, "cap": cap})
+        self.record({"ev": "DidUpload", "rid": rid, "cap": cap}, x)
 
     def did_check_healthy(self, rid):
-        self.fres[rid].did_check_healthy({"results": {"healthy": True}})
-        self.record({"ev": "DidCheckHealthy", "rid": rid})
+        _, x = self.call(self.fres[rid].did_check_healthy, {"results": {"healthy": True}})
+        self.record({"ev": "DidCheckHealthy", "rid": rid}, x)
 
     def check_dir(self, contents):
         self.rnd.pm = self.rng.choice([0, 100, 333, 500, 900, 999])
-        r = self.bdb.check_directory({n: c.encode() for (n, c) in contents})
+        r, x = self.call(self.bdb.check_directory, {n: c.encode() for (n, c) in contents})
         self.nr += 1
         self.dres[self.nr] = r
-        h = self.s(r.dirhash)
-        self.hash2contents.setdefault(h, [list(x) for x in sorted(contents)])
-        cap = r.was_created()
-        self.record({"ev": "CheckDir", "did": self.nr, "contents": [list(x) for x in sorted(contents)], "rnd": self.rnd.pm,
-                     "res": {"cap": self.s(cap) if cap else "", "should": bool(r.should_check())}})
+        if r:
+            self.hash2contents.setdefault(self.s(r.dirhash), [list(y) for y in sorted(contents)])
+        cap = r.was_created() if r else None
+        self.record({"ev": "CheckDir", "did": self.nr, "contents": [list(y) for y in sorted(contents)], "rnd": self.rnd.pm,
+                     "res": {"cap": self.s(cap) if cap else "", "should": bool(r.should_check()) if r else False}}, x)
         return self.nr, r
 
     def did_create(self, did, cap):
-        self.dres[did].did_create(cap.encode())
-        self.record({"ev": "DidCreate", "did": did, "cap": cap})
+        _, x = self.call(self.dres[did].did_create, cap.encode())
+        self.record({"ev": "DidCreate", "did": did, "cap": cap}, x)
 
     def did_check_dir_healthy(self, did):
-        self.dres[did].did_check_healthy({"results": {"healthy": True}})
-        self.record({"ev": "DidCheckDirHealthy", "did": did})
+        _, x = self.call(self.dres[did].did_check_healthy, {"results": {"healthy": True}})
+        self.record({"ev": "DidCheckDirHealthy", "did": did}, x)
 
     def forget(self, which, cap):
         con = sqlite3.connect(self.dbfile)
@@ -211,7 +225,7 @@ def history(rng, workdir, nevents):
     for n in r.names[:2]:
         r.set_file(n, size=rng.randint(0, 2), mtime=1000 + rng.randint(0, 1), ctime=2000 + rng.randint(0, 1), content=rng.randint(0, 2))
     dirnames = ["a", "b", "é"]
-    while len(r.events) < nevents:
+    while len(r.events) < nevents and not r.broken:
         x = rng.random()
         live = [n for n in r.names if os.path.exists(r.apath(n))]
         if x < 0.22:
@@ -236,6 +250,8 @@ def history(rng, workdir, nevents):
             n = rng.choice(live)
             rid, res = r.check_file(n, use_ts=(rng.random() < 0.85), relative=(rng.random() < 0.3))
             y = rng.random()
+            if r.broken:
+                break
             if not res.was_uploaded():
                 if y < 0.8:
                     r.did_upload(rid, "URI:CHK:c%d" % r.content[n])
@@ -260,6 +276,8 @@ def history(rng, workdir, nevents):
             contents = [(nm, "URI:CHK:c%d" % rng.randint(0, 2)) for nm in names]
             did, res = r.check_dir(contents)
             y = rng.random()
+            if r.broken:
+                break
             if not res.was_created():
                 if y < 0.8:
                     r.dircaps += 1
